@@ -233,6 +233,12 @@ class FragDomain(Domain):
                 return cat(l, r)
             if isinstance(l, ListV) and isinstance(r, ListV):
                 return ListV(l.seq + r.seq, l.loop | r.loop)
+            rr = r.of if isinstance(r, ListOf) else r
+            if isinstance(l, ListV) and not l.loop and isinstance(rr, CompList) and _hashable(rr):
+                # list + [f(k) for k in keys]: the comprehension's elements are spliced in after the listed ones
+                return ListV(l.seq + (Splice(rr),), l.loop)
+            if isinstance(l, ListV) and isinstance(rr, TupleV):
+                return ListV(l.seq + rr.items, l.loop)
         if isinstance(node.op, ast.Mod) and isinstance(l, Const) and isinstance(l.v, bytes):
             return B((("taint", r),))
         return super().binop(node, l, r, state)
